@@ -479,3 +479,28 @@ def extra_units():      # noqa: F811
     from contracts import c07
     from pyvc.units import share
     return _extra_c05() + [share(u, PROP) for u in (c07.pop0, c07.pop1)]
+
+
+# ------------------------------------------------------------------------------ get_read_group_from_read: the read group written on a
+# record (its id) is the one declared for it (the ID of the dictionary that goes into the header)
+def rg_read(eng, name):
+    return stubs.make_read(eng, name, tags={'Fc': STR, 'La': STR, 'LY': STR, 'SM': STR}, closed=True)
+
+
+RG_ID = ('(read.get_tag("Fc") if read.has_tag("Fc") else "NONE") + "." + (read.get_tag("La") if read.has_tag("La") else "NONE") + "." + '
+         '(read.get_tag("SM") if format == 0 else read.get_tag("LY"))')
+read_group_of_read = Contract(
+    PROP, FBF + '::get_read_group_from_read', name='get_read_group_from_read',
+    params={'read': rg_read, 'format': ('const', 0), 'with_attr_dict': ('const', True)},
+    cases=[{}, {'format': ('const', 1)}, {'with_attr_dict': ('const', False)}],
+    requires=['read.has_tag("SM") if format == 0 else read.has_tag("LY")'],
+    ensures={
+        'id_is_flowcell_lane_sample': '(result[0] if with_attr_dict else result) == ' + RG_ID,
+        'the_declared_group_carries_the_same_id':
+            'implies(with_attr_dict, result[1]["ID"] == result[0] and result[1]["PU"] == result[0] and '
+            'result[1]["SM"] == (read.get_tag("SM") if format == 0 else read.get_tag("LY")))',
+    },
+    raises={},
+    assumptions=['pysam tag accessors through the record stub; the sample tag of the chosen format is present (set by the tagger)'],
+)
+UNITS.append(read_group_of_read)
